@@ -43,7 +43,7 @@ def instances(tier, seed):
                     continue
                 specs.append({'n': n, 'kind': kind})
         specs += [{'n': 11, 'kind': 'conv'}, {'n': 12, 'kind': 'conv'}, {'n': 2, 'kind': 'conv', 'blocks': 2}, {'n': 3, 'kind': 'seq', 'twice': True},
-                  {'n': 2, 'kind': 'mix', 'blocks': 2, 'twice': True}]
+                  {'n': 2, 'kind': 'mix', 'blocks': 2, 'twice': True}, {'n': 2, 'kind': 'dw'}, {'n': 2, 'kind': 'conv', 'stem2': True}]
     else:
         for n in range(2, 13):
             for kind in ('conv', 'seq', 'user', 'userfn', 'useradd', 'identity', 'mix'):
